@@ -13,6 +13,7 @@ import (
 	"github.com/ipfs/go-cid"
 	"github.com/ipfs/go-unixfsnode"
 	"github.com/ipld/go-ipld-prime"
+	"github.com/ipld/go-ipld-prime/codec"
 	"github.com/ipld/go-ipld-prime/datamodel"
 	"github.com/ipld/go-ipld-prime/linking"
 	cidlink "github.com/ipld/go-ipld-prime/linking/cid"
@@ -354,6 +355,54 @@ func (s *Store) LinkSystemCfg(reifiers, prepopulated, nodeReifier bool) *ipld.Li
 	if nodeReifier {
 		ls.NodeReifier = unixfsnode.Reify
 	}
+	return &ls
+}
+
+type pieceWriter struct {
+	w   io.Writer
+	max int
+}
+
+func (p pieceWriter) Write(b []byte) (int, error) {
+	n := 0
+	for len(b) > 0 {
+		k := p.max
+		if k > len(b) {
+			k = len(b)
+		}
+		m, err := p.w.Write(b[:k])
+		n += m
+		if err != nil {
+			return n, err
+		}
+		b = b[k:]
+	}
+	return n, nil
+}
+
+// ChunkedEncoders makes every encoder of ls hand its output to the storage
+// writer in pieces of at most max bytes (the codec.Encoder contract allows any
+// number of Write calls per block).
+func ChunkedEncoders(ls *ipld.LinkSystem, max int) *ipld.LinkSystem {
+	orig := ls.EncoderChooser
+	ls.EncoderChooser = func(lp datamodel.LinkPrototype) (codec.Encoder, error) {
+		enc, err := orig(lp)
+		if err != nil {
+			return nil, err
+		}
+		return func(n datamodel.Node, w io.Writer) error {
+			return enc(n, pieceWriter{w, max})
+		}, nil
+	}
+	return ls
+}
+
+// SplitLinkSystem reads from one store and writes to another (an import into a
+// fresh store while an older snapshot serves reads).
+func SplitLinkSystem(read, write *Store) *ipld.LinkSystem {
+	ls := cidlink.DefaultLinkSystem()
+	ls.StorageReadOpener = read.OpenRead
+	ls.StorageWriteOpener = write.OpenWrite
 	return &ls
 }
 
